@@ -2,6 +2,7 @@
      kind n (base size tag)*n m (query)*m
    kinds 42/43 (STACK WIN tables, model kind 7): a table entry is start-end:tag@start+len (the model proves that an
    entry is filed under its own record's range, c08_win_sorted_disjoint), a lookup answer is tag@address+size
+   kind 19 (model kind 9): ERR;; when the reader rejects the whole stream
    output: one line  P|OK;start-end:tag,...;g1|g2|...   (each g = tags joined by '+', '-' if none) *)
 let () =
   try
@@ -11,7 +12,7 @@ let () =
         let toks = Array.of_list (split_ws line) in
         let pos = ref 0 in
         let next () = let t = toks.(!pos) in incr pos; t in
-        let kind = (match int_of_string (next ()) with 11 | 12 | 13 | 14 | 15 | 16 -> 1 | 17 -> 2 | 41 -> 4 | 42 | 43 -> 7 | 18 -> 8 | k -> k) |> z_of_int in
+        let kind = (match int_of_string (next ()) with 11 | 12 | 13 | 14 | 15 | 16 -> 1 | 17 -> 2 | 41 -> 4 | 42 | 43 -> 7 | 18 -> 8 | 19 -> 9 | k -> k) |> z_of_int in
         let n = int_of_string (next ()) in
         let ents = List.init n (fun _ ->
           let b = z_of_string (next ()) in
@@ -23,6 +24,7 @@ let () =
         let b = Buffer.create 256 in
         if kind = z_of_int (-1) then Buffer.add_string b "?" else
         if o_panic o then Buffer.add_string b "P;;"
+        else if o_err o then Buffer.add_string b "ERR;;"
         else begin
           Buffer.add_string b "OK;";
           Buffer.add_string b (String.concat ","
